@@ -11,4 +11,6 @@ mcMenu == << << Rl(<<"d">>, <<"o/x">>, "fn", "c2"), Rl(<<"o.s", "o/x">>, <<"s1",
 mcInit == << <<"s1", "S0">>, <<"s2", "S0">> >>
 mcScriptRevert == << <<"build", "">>, <<"edit", "s1", "S1">>, <<"build", "">>, <<"edit", "s1", "S0">>, <<"build", "">>, <<"build", "">> >>
 mcScriptRevert2 == << <<"build", "">>, <<"edit", "s2", "S1">>, <<"build", "">>, <<"edit", "s2", "S0">>, <<"build", "d">>, <<"clean", "">>, <<"build", "">> >>
+\* ends with the build that takes the earlier targets back from the cache: the invocation the crash drivers kill
+mcScriptRevertC == << <<"build", "">>, <<"edit", "s1", "S1">>, <<"build", "">>, <<"edit", "s1", "S0">>, <<"build", "">> >>
 ====
